@@ -89,6 +89,33 @@ def run(ctx):
             else:
                 r1.fail("C19.R1:limit-expr", f.path, common.span_of_block_term(f, n[2]), "page size ⊢ min(%s, %s); expected min(limit.unwrap_or(10), 30)" % (ra, rb_))
                 ok = None
+        if ok is False and n[0] == "call" and isinstance(n[3], str) and roles.is_workspace_fn(P, n[3]) and len(n[4]) == 1 and set(ctx.roots(n[4][0])) == {P_(f, lim_i)}:
+            # `page_size(limit)`: the helper's decision table must be  None -> 10 ; Some(l), l > 30 -> 30 ; Some(l), l <= 30 -> l
+            hp = P.fn(n[3]) or P.fn(generic_path(n[3]))
+            LP = P_(hp, 0)
+            rows = []
+            for (eb_, ei_, ecls_, ev_) in common.exit_sites(P, hp):
+                # one row per definition of the returned local (`let n = match limit {..}; n as usize`)
+                alts_ = [(eb_, ev_)]
+                stl_ = hp.body.blocks[eb_]["stmts"]
+                if ei_ < len(stl_) and stl_[ei_]["rv"]["k"] in ("cast", "use") and stl_[ei_]["rv"]["op"]["k"] in ("copy", "move"):
+                    alts_ = [((st_[0] if st_ != "entry" else 0), av_) for st_, av_ in P.alts_with_sites(hp, (eb_, ei_), stl_[ei_]["rv"]["op"]["place"])]
+                for ab_, av_ in alts_:
+                    x_ = av_
+                    while x_[0] == "cast":
+                        x_ = x_[2]
+                    rows.append(("|".join(sorted(ctx.roots(x_))), frozenset(lemmas.cond_strings(ctx, common.control_conditions(P, hp, ab_)))))
+            want_rows = {
+                ("K:10", frozenset({"discr(%s) in ['None']" % LP})),
+                ("K:30", frozenset({"discr(%s) in ['Some']" % LP, "lt(K:30, %s)" % LP})),
+                (LP, frozenset({"discr(%s) in ['Some']" % LP, "le(%s, K:30)" % LP})),
+            }
+            if set(rows) == want_rows and len(rows) == 3:
+                ok = True
+                r1.site("n ⊢ %s(limit): None -> 10; Some(l) -> 30 if l > 30 else l" % hp.path)
+            else:
+                r1.fail("C19.R1:limit-expr", hp.path, hp.span, "page size helper yields %s; expected None -> 10, Some(l) -> min(l, 30)" % sorted((a_, sorted(b2_)) for a_, b2_ in rows)[:6])
+                ok = None
         if ok is False:
             r1.fail("C19.R1:not-clamped", f.path, common.span_of_block_term(f, takes[0][1][2]),
                     "page size ⊢ %s is not `min(limit or default, maximum)`: a caller-supplied limit is not capped at 30" % ctx.show(n, 4))
@@ -126,6 +153,10 @@ def run(ctx):
         bound_in_helper = True
     elif kind_b is None and lo[0] == "call" and isinstance(lo[3], str) and generic_path(lo[3]).endswith("Option::map") and lo[4][1][0] == "agg" and lo[4][1][1] == "closure":
         # `cursor.map(|a| { let mut v = key(&a); v.push(1); Bound::ExclusiveRaw(v) })`: the closure builds the bound itself
+        cursor_v = lo
+        bound_in_helper = True
+    elif kind_b is None and lo[0] == "phi" and all(a_[0] == "agg" and re.search(r"Option::(Some|None)$", str(a_[2])) for a_ in lo[1]):
+        # `match start_after { Some(a) => Some(Bound::ExclusiveRaw(cursor(a))), None => None }` written in the reader itself
         cursor_v = lo
         bound_in_helper = True
     elif kind_b is None:
@@ -181,6 +212,13 @@ def run(ctx):
         if val is None:
             r2.fail("C19.R2:shape", f.path, f.span, "cursor is not computed as start_after.map(|assets| ...) / match start_after { Some(a) => Some(..), None => None }: unrecognised-idiom")
         else:
+            if val[0] == "call" and isinstance(val[3], str) and generic_path(val[3]) != kf.path and roles.is_workspace_fn(P, val[3]) and len(val[4]) == 1 \
+                    and set(ctx.roots(val[4][0])) == {arg_want}:
+                # `key_after(assets)`: a helper that extends the key — its body is judged in place of the call
+                h2 = P.fn(val[3]) or P.fn(generic_path(val[3]))
+                ex2 = common.exit_sites(P, h2) if h2 is not None and h2.body is not None else []
+                if len(ex2) == 1:
+                    val, arg_want, clo = ex2[0][3], P_(h2, 0), h2
             muts = []
             while val is not None and val[0] == "mut":
                 muts.append((val[3], val[4]))
@@ -246,7 +284,7 @@ def run(ctx):
                 r4.fail("C19.R4:limit", qp.path, common.span_of_block_term(qp, calls[0]), "page reader receives limit ⊢ %s, expected the query's limit unchanged" % sorted(lr))
             else:
                 r4.site("limit forwarded unchanged")
-            curv = common.unfold_combinators(P, cv[4][cur_i])
+            curv = common.inline_helpers(P, common.unfold_combinators(P, cv[4][cur_i]))      # a private `[to_raw(a), to_raw(b)]` helper is its body
             cr = "|".join(sorted(ctx.roots(curv)))
             sa = P_(qp, sa_i)
             want1 = "A:std::option::Option::None{}|A:std::option::Option::Some{0=A:array[C:%s@" % ctx.N.cpath("info_to_raw")
